@@ -31,7 +31,10 @@ pub fn dispatch(op: &str, ty: &str, args: &[Arg]) -> Option<String> {
             let (sh, es) = strs(a)?;
             let prec = match p { Arg::N => None, Arg::Z(z) => Some(*z as usize), _ => return Some("bad".into()) };
             match ty { "i32" => disp::<i32>(&sh, &es, prec, *alt == 1), "f64" => disp::<f64>(&sh, &es, prec, *alt == 1),
-                       "str" => disp::<String>(&sh, &es, prec, *alt == 1), "bool" => disp::<bool>(&sh, &es, prec, *alt == 1), _ => None }
+                       "str" => disp::<String>(&sh, &es, prec, *alt == 1), "bool" => disp::<bool>(&sh, &es, prec, *alt == 1),
+                       // compound elements: a precision / width given to the array leaves their text as it is
+                       "t2" => disp::<Tuple2<i32, i32>>(&sh, &es, prec, *alt == 1), "t3" => disp::<Tuple3<i32, i32, i32>>(&sh, &es, prec, *alt == 1),
+                       "t2s" => disp::<Tuple2<String, i32>>(&sh, &es, prec, *alt == 1), "list" => disp::<List<i32>>(&sh, &es, prec, *alt == 1), _ => None }
         }
         ("display", [_, p, Arg::Z(alt), raw]) => {
             // the implementation formats the raw values; the first argument holds the renderings the model nests
